@@ -61,6 +61,9 @@ func getProfile(name string, seed int64) *Profile {
 		p.Pads = true
 		p.Colls = 1
 		p.Invalid = 0.05
+	case "runs": // C01 C15 C17: runs of more than 32 equal index keys
+		p.Colls = 1
+		p.Invalid = 0
 	case "longstr": // C01 C08 C10: long strings that are prefixes of one another in an indexed field
 		p.Colls = 1
 		p.Invalid = 0
@@ -180,6 +183,8 @@ func generate(p *Profile, seed int64) ([]E, *Universe) {
 		return g.HistoryExpiry(), g.U
 	case p.Name == "longstr":
 		return g.HistoryLongStr(), g.U
+	case p.Name == "runs":
+		return g.HistoryRuns(), g.U
 	case p.Name == "algebra":
 		return g.HistoryAlgebra(), g.U
 	case p.Name == "huge":
